@@ -88,7 +88,7 @@ pub fn register(l: &mut Vec<Obl>) {
         });
     macro_rules! roundtrip {
         ($key:literal, $P:ident) => {
-            obl!(l; concat!("c16_xyz_roundtrip_", $key), "C16", Tier::Thorough,
+            obl!(l; concat!("c16_xyz_roundtrip_", $key), "C16", Tier::Open,
                 concat!("XYZ -> ", stringify!($P), " -> XYZ returns the colour (1e-4) for every XYZ in [0.05,1]^3 under the default viewing conditions (D65, L_A = 40)"),
                 [concat!(stringify!($P), "::from_xyz"), concat!(stringify!($P), "::into_xyz"), "cam16::math::xyz_to_cam16", "cam16::math::cam16_to_xyz"],
                 [var("x", 0.05, 1.0), var("y", 0.05, 1.0), var("z", 0.05, 1.0)];
